@@ -3,6 +3,7 @@
    dictionary (one system TrieBuf + one user TrieBuf, both without a backing
    file).  Executable definitions only. *)
 From Coq Require Import NArith List Bool Arith.
+From LC Require Model.Keyboard Model.LayoutBase Model.Layout.
 From LC Require Import Base.Lib Gen.Bopomofo_gen Gen.Editor_gen Model.Syllable Model.Composition
      Model.Conversion Model.Engine Model.Editor.
 Import ListNotations.
@@ -38,7 +39,41 @@ Definition default_fuzzy_key_press (key_press : N -> keyevent -> N * kbehavior) 
 
 Definition std_ops : syl_ops N :=
   mkSylOps N std_key_press (default_fuzzy_key_press std_key_press) is_empty (fun s => s)
-           (fun _ => EMPTY_PATTERN) (fun s => snd (pop s)) (fun _ _ => []).
+           (fun _ => EMPTY_PATTERN) (fun s => snd (pop s)) (fun _ _ => []) (fun _ _ => EMPTY_PATTERN).
+
+(* ---- every phonetic layout (Model/Layout.v, the models behind C14) as the editor's syllable editor ---- *)
+(* The syllable editor object is (layout number, layout state); chewing_set_KBType / Editor::set_syllable_editor
+   installs a fresh one (so_switch).  Layout numbers: Layout.L_STANDARD .. L_MPS2 (0..9). *)
+Definition lay := (N * LayoutBase.lstate)%type.
+
+Definition to_layout_event (ev : keyevent) : Keyboard.key_event :=
+  Keyboard.mk_event (kindex ev) (kcode ev) (kunicode ev)
+    ((if mshift ev then 1 else 0) + (if mctrl ev then 2 else 0) + (if mcaps ev then 4 else 0) + (if mnum ev then 8 else 0))%N.
+
+Definition of_layout_behavior (b : LayoutBase.behavior) : kbehavior :=
+  match b with
+  | LayoutBase.Ignore => KIgnore | LayoutBase.Absorb => KAbsorb | LayoutBase.Commit => KCommit
+  | LayoutBase.KeyError => KKeyError | LayoutBase.BError => KError | LayoutBase.NoWord => KNoWord
+  | LayoutBase.OpenSymbolTable => KOpenSymbolTable | LayoutBase.Fuzzy s => KFuzzy s
+  end.
+
+(* a panic of a layout (C14 proves there is none) would be a panic of the key handler; the ops record has no
+   outcome type, so it is mapped to KError with the state kept - the correspondence would show it at once *)
+Definition lay_press (f : N -> LayoutBase.lstate -> Keyboard.key_event -> outcome (LayoutBase.lstate * LayoutBase.behavior))
+  (x : lay) (ev : keyevent) : lay * kbehavior :=
+  match f (fst x) (snd x) (to_layout_event ev) with
+  | Ok r => ((fst x, fst r), of_layout_behavior (snd r))
+  | _ => (x, KError)
+  end.
+
+Definition lay_ops : syl_ops lay :=
+  mkSylOps lay (lay_press Layout.key_press) (lay_press Layout.fuzzy_key_press)
+    (fun x => Layout.l_is_empty (fst x) (snd x))
+    (fun x => Layout.l_read (fst x) (snd x))
+    (fun x => (fst x, Layout.l_clear (fst x) (snd x)))
+    (fun x => (fst x, Layout.l_remove_last (fst x) (snd x)))
+    (fun x s => Layout.l_alt_syllables (fst x) s)
+    (fun _ L => (L, LayoutBase.lstate_empty)).
 
 (* ---- in-memory layered dictionary ---- *)
 (* entry = (syllable key, text, freq, time); kept sorted by (key, text) like a BTreeMap *)
@@ -180,4 +215,45 @@ Definition m_conv : conv_fn memdict := fun d k c n =>
   | _ => if Nat.leb (clen c) 4000
          then engine_alt sort_by_len spell (fun syms => md_lookup d (engine_fuzzy k) (syl_prefix syms)) c n
          else simple_convert (m_lookup1 d) spell c
+  end.
+
+(* ---- the instance the correspondence check runs since the layouts joined the editor model: the syllable editor
+   is (layout number, layout state), so histories switch layouts (OpLayout / m_set_layout) at any moment ---- *)
+Definition medl := editor memdict lay.
+Definition ml_init (d : memdict) (L : N) (ab : list (N * list N)) (ss : symbol_sel) (t0 : N) : medl :=
+  init_editor d (L, LayoutBase.lstate_empty) ab ss t0.
+Definition ml_key (conv : conv_fn memdict) (e : medl) (ev : keyevent) := process_keyevent md_ops lay_ops conv e ev.
+Definition ml_select (conv : conv_fn memdict) (e : medl) (n : nat) := ed_select md_ops lay_ops conv e n.
+Definition ml_cancel (e : medl) := ed_cancel_selecting e.
+Definition ml_start_selecting (e : medl) := ed_start_selecting md_ops lay_ops e.
+Definition ml_commit (conv : conv_fn memdict) (e : medl) := ed_commit md_ops conv e.
+Definition ml_clear (e : medl) := ed_clear lay_ops e.
+Definition ml_ack (e : medl) := ed_ack e.
+Definition ml_set_options (e : medl) (o : options) := ed_set_options_c md_ops lay_ops e o.
+Definition ml_set_engine (e : medl) (k : engine_kind) := ed_set_engine e k.
+Definition ml_set_layout (e : medl) (L : N) := ed_set_layout md_ops lay_ops e L.
+Definition ml_clear_syl (e : medl) := ed_clear_syllable_editor lay_ops e.
+Definition ml_jump_next (e : medl) := ed_jump_next md_ops e.
+Definition ml_jump_prev (e : medl) := ed_jump_prev md_ops e.
+Definition ml_jump_first (e : medl) := ed_jump_first md_ops e.
+Definition ml_jump_last (e : medl) := ed_jump_last md_ops e.
+Definition ml_learn (e : medl) (k t : list N) := ed_learn_c md_ops lay_ops e k t.
+Definition ml_unlearn (e : medl) (k t : list N) := ed_unlearn_c md_ops lay_ops e k t.
+Definition ml_candidates (e : medl) := ed_all_candidates md_ops lay_ops e.
+Definition ml_total_page (e : medl) := ed_total_page md_ops lay_ops e.
+Definition ml_syl_read (e : medl) : N := so_read lay_ops (syl (sh e)).
+Definition ml_layout (e : medl) : N := fst (syl (sh e)).
+
+Definition ml_valid_conv (e : medl) (c : composition) (ivs : list interval) : bool :=
+  let d := dict (sh e) in
+  match engine (sh e) with
+  | EngSimple => list_eqb interval_eqb (simple_convert (m_lookup1 d) spell c) ivs
+  | k => valid_conversion spell (fun syms => md_lookup d (engine_fuzzy k) (syl_prefix syms)) c ivs
+  end.
+
+Definition ml_engine_alts (e : medl) (c : composition) : outcome (list (list interval) * bool) :=
+  let d := dict (sh e) in
+  match engine (sh e) with
+  | EngSimple => Ok ([simple_convert (m_lookup1 d) spell c], false)
+  | k => chewing_convert_x sort_by_len spell (fun syms => md_lookup d (engine_fuzzy k) (syl_prefix syms)) c
   end.
